@@ -133,6 +133,11 @@ void on_signal(int sig) {
 }
 
 void install_crash_handlers() {
+    // The harness process hosts in-process Nodes / control servers the way `eph serve` and eph-relay-server host them:
+    // with SIGPIPE ignored (both binaries do that in main()).  A peer or client of the harness that goes away while the
+    // code under test still writes to it must produce a failed send(), not end the worker without a reproducer.  What
+    // the real process does with SIGPIPE is judged by the black-box engines (C35_hyp.py, C26_hyp.py).
+    std::signal(SIGPIPE, SIG_IGN);
     std::snprintf(g_crash_path, sizeof g_crash_path, "%s/crash.tape", g_faildir.c_str());
     __sanitizer_set_death_callback(crash_dump);
     std::signal(SIGABRT, on_signal);
@@ -329,6 +334,7 @@ extern "C" int LLVMFuzzerInitialize(int*, char***) {
     if (const char* o = std::getenv("VERIF_OUT")) g_out = o;
     if (const char* o = std::getenv("VERIF_HASHES")) g_hashes = o;
     if (const char* o = std::getenv("VERIF_FAILDIR")) g_faildir = o;
+    std::signal(SIGPIPE, SIG_IGN);   // see install_crash_handlers()
     std::atexit(dump_stats);
     return 0;
 }
